@@ -91,6 +91,7 @@ class Cfg:
         self.doc_escapes = False      # doc words like C:\\users (\\u... in generated docstrings)
         self.omitted = True           # Omitted(...) annotations (change what is encoded)
         self.union_chain_bias = False  # C07: more and longer union inheritance chains
+        self.alias_nesting_bias = False  # C20: aliases of containers / nullables of other aliases
         self.nullable_aliases = False  # `alias N = String?`: stone treats fields of such a type
         #                                inconsistently (DESIGN 5) -> only the frontend checks enable it
         for k, v in kw.items():
@@ -487,8 +488,17 @@ class Builder:
             if d['k'] != 'alias':
                 continue
             me = (ns['name'], d['name'])
+            earlier = [('alias', n_, a_['name']) for n_, a_ in self.visible(ns, ('alias',))
+                       if a_['type'] is not None and self.rank[(n_, a_['name'])] < self.rank[me]
+                       and not self.idx.is_nullable(('alias', n_, a_['name']))] if self.cfg.alias_nesting_bias else []
             if self.cfg.annot_bias and g.p(50):
                 t = g.choice([prim('String'), prim('Int64'), prim('UInt32'), prim('Float64')])
+            elif earlier and g.p(35):
+                # an alias reached only through another alias, below a nullable and / or a container
+                a_ = g.choice(earlier)
+                t = g.choice([a_, ('list', ('nullable', a_), None, None), ('map', prim('String'), ('nullable', a_)),
+                              ('list', a_, None, None), ('map', prim('String'), ('list', a_, None, None))] +
+                             ([('nullable', a_)] if self.cfg.nullable_aliases else []))
             else:
                 t = self.gen_type(ns, depth=g.int(0, 2), allow_nullable=self.cfg.nullable_aliases,
                                   max_rank=self.rank[me])
@@ -738,7 +748,10 @@ class Builder:
                         # their wire form nests under the tag key instead of being flattened
                         structs = self.visible(ns, ('struct',))
                         trees = [x for x in structs if x[1].get('subtypes')]
-                        pool = trees if trees and g.p(60) else structs
+                        # listed subtypes are plain structs on the wire although they sit in a tree
+                        leaves = [x for x in structs if x[1].get('parent') and
+                                  self.idx.get(*x[1]['parent']).get('subtypes')]
+                        pool = trees if trees and g.p(45) else (leaves if leaves and g.p(45) else structs)
                         if pool:
                             n_, s_ = g.choice(pool)
                             r = ('ref', n_, s_['name'])
